@@ -43,6 +43,7 @@ InitS == [ prev     |-> 0,        \* evaluation time of the last cycle (the star
            stopCall |-> FALSE,    \* some thread has started a stop request
            stopRet  |-> FALSE,    \* a stop request has returned to its caller
            after    |-> 0,        \* cycles begun after a stop request returned
+           noMore   |-> FALSE,    \* the stop flag was set (under the mutex) before the loop computed its next time: no cycle may follow
            allow    |-> 1,        \* cycles that may still begin after it: the current one (none if the request came from inside a cycle)
            fPush    |-> FALSE,    \* push_update_pending as set/cleared under the executor mutex
            fStop    |-> FALSE,    \* stop flag as set under the executor mutex
@@ -56,7 +57,7 @@ OnCycle(e) ==
           <<"C17.cycle_at_or_after_end_time", e.t < End>>,
           <<"C17.evaluated_before_wall_clock_reached_T", e.w >= e.t \/ e.t = S.prev + 1>>,
           <<"C17.scheduled_time_skipped", \A p \in S.pend : p[1] >= e.t>>,
-          <<"C17.ran_on_after_stop_request", S.stopRet => S.after < S.allow>> >>, 1)
+          <<"C17.ran_on_after_stop_request", ~S.noMore /\ (S.stopRet => S.after < S.allow)>> >>, 1)
     IN IF why # "" THEN Fail(why)
        ELSE Ok([S EXCEPT !.prev = e.t, !.first = FALSE, !.inCycle = TRUE,
                          !.consec = IF e.t = S.prev + 1 THEN @ + 1 ELSE 0,
@@ -101,7 +102,9 @@ OnHook(e) ==
       [] e.p = "rt_wait_begin"    ->
              \* the loop is about to sleep (mutex held) although a push or a stop has been signalled under that mutex
              IF S.fPush \/ S.fStop THEN Fail("C17.notification_lost_while_waiting") ELSE Ok(S)
-      [] e.p = "rt_compute_next"  -> Ok([S EXCEPT !.wallNext = e.b, !.inCycle = FALSE])
+      \* the stop flag is set before its point is numbered and the loop tests it after this point: a request numbered
+      \* earlier must end the run without another cycle (there is no "current cycle" while the loop waits)
+      [] e.p = "rt_compute_next"  -> Ok([S EXCEPT !.wallNext = e.b, !.inCycle = FALSE, !.noMore = S.fStop])
       [] e.p = "rt_drain_cut"     ->
              IF S.wallNext >= End /\ S.consec >= DrainBound THEN Ok([S EXCEPT !.cut = TRUE])
              ELSE Fail("C17.run_cut_short_without_the_sanctioned_drain")
